@@ -197,3 +197,27 @@ class AsForgedSlow(object):
 
 
 AsForgedSlow.__call__ = specifiers.set_signature_forger(AsForgedSlow.__call__, _user_forger)
+
+
+# a functools.wraps function whose forwarding goes through a property (user code run while the callee is resolved)
+def _wrapped_target(x, y, *, z=0):
+    return ('target', x, y, z)
+
+
+def _real_impl(x, y, *, z=0):
+    return ('impl', x, y, z)
+
+
+class _Holder(object):
+    @property
+    def impl(self):
+        _tick()
+        return _real_impl
+
+
+holder = _Holder()
+
+
+@functools.wraps(_wrapped_target)
+def resolving_wrapped(*args, **kwargs):
+    return holder.impl(*args, **kwargs)
